@@ -110,6 +110,12 @@ type Sys struct {
 	// points to must not change afterwards, whatever this or any other world does)
 	keptRel    [2]*ecs.ID
 	keptRelVal [2]ecs.ID
+
+	// queries that the listener opened inside a removal notification and did NOT close before returning (legal: a query
+	// may be opened on a locked world and outlive the removal's own lock); released by Apply right after the operation
+	kept        []*ecs.Query
+	KeptTrouble string
+	KeptSeen    int
 }
 
 var allSubs = event.Subscription(63)
@@ -421,6 +427,14 @@ func (l *recListener) Notify(w *ecs.World, e ecs.EntityEvent) {
 				}()
 			}
 			ev.UnlockedAfterNested = !w.IsLocked()
+		}
+		// a listener that opens a query and keeps it beyond the notification: its lock must outlive the removal's own
+		if s.chaosSeq%8 == 5 && len(s.kept) < 2 {
+			func() {
+				defer func() { recover() }()
+				q := w.Query(ecs.All())
+				s.kept = append(s.kept, &q)
+			}()
 		}
 		// a listener that tries to modify the world inside a removal notification: must be refused
 		escaped := false
@@ -785,6 +799,9 @@ func (s *Sys) Apply(op *COp) (res Result) {
 				res.RuntimeErr = true
 			}
 		}
+		if len(s.kept) > 0 {
+			s.releaseKept()
+		}
 	}()
 	w := s.W
 	s.applySeq++
@@ -1022,4 +1039,43 @@ func (s *Sys) Apply(op *COp) (res Result) {
 func (s *Sys) AddSlot(spec *FilterSpec) {
 	s.Filters = append(s.Filters, spec.Build(s.IDs))
 	s.Cached = append(s.Cached, nil)
+}
+
+// releaseKept ends the queries a removal notification left open. Until then the world must still be locked by them
+// (the removal released only its own lock), must refuse structural calls, and closing each must release exactly one lock.
+func (s *Sys) releaseKept() {
+	w := s.W
+	trouble := ""
+	note := func(f string, a ...interface{}) {
+		if trouble == "" {
+			trouble = fmt.Sprintf(f, a...)
+		}
+	}
+	s.KeptSeen += len(s.kept)
+	if !w.IsLocked() {
+		note("a query opened inside a removal notification is still open, but the world is unlocked after the removal returned")
+	} else {
+		refused := func() (refused bool) {
+			defer func() { refused = recover() != nil }()
+			w.NewEntity()
+			return
+		}()
+		if !refused {
+			note("NewEntity succeeded while a query opened inside a removal notification is still open")
+		}
+	}
+	for _, q := range s.kept {
+		func() {
+			defer func() {
+				if r := recover(); r != nil {
+					note("closing a query that was opened inside a removal notification panicked: %v", r)
+				}
+			}()
+			q.Close()
+		}()
+	}
+	s.kept = s.kept[:0]
+	if trouble != "" && s.KeptTrouble == "" {
+		s.KeptTrouble = trouble
+	}
 }
